@@ -87,6 +87,8 @@ void run_roundtrip(const Execution &ex) {
     std::string data2(data.rbegin(), data.rend());
     for (auto &c : data2) c = (char) (c ^ 0x5A);
     size_t first = append_second ? len / 2 : len;
+    size_t maxchunk = (size_t) ex.cfg.num("maxchunk", 9000);   // chunk sizes are 1 .. maxchunk
+    int via = (int) ex.cfg.num("via", -1);
     std::string problem;
     try {
         {   // write (truncating), in random chunk sizes, alternating the two write overloads
@@ -96,8 +98,17 @@ void run_roundtrip(const Execution &ex) {
             size_t off = 0, off2 = 0;
             int k = 0;
             while (off < first) {
-                size_t c = std::min<size_t>(first - off, 1 + next() % 9000);
-                size_t n = (k++ % 2) ? f.write(data.substr(off, c)) : f.write(data.data() + off, c);
+                size_t c = std::min<size_t>(first - off, 1 + next() % maxchunk);
+                // the four ways File offers to write: bytes, a std::string, records of es bytes (es = the largest of 8, 4, 2, 1
+                // that divides the chunk), an Array<byte>; `via` >= 0 pins one of them
+                size_t es = c % 8 == 0 ? 8 : c % 4 == 0 ? 4 : c % 2 == 0 ? 2 : 1;
+                int how = via >= 0 ? via : k % 4;
+                ++k;
+                size_t n;
+                if (how == 1) n = f.write(data.substr(off, c));
+                else if (how == 2) n = f.write(data.data() + off, c / es, es) * es;
+                else if (how == 3) n = f.write(tulz::Array<tulz::byte>((tulz::byte *) (data.data() + off), c));
+                else n = f.write(data.data() + off, c);
                 if (n != c) problem = "write() returned " + std::to_string(n) + " for " + std::to_string(c) + " bytes";
                 off += c;
                 if (companion && off2 < data2.size()) {
